@@ -1,1 +1,471 @@
-fn main() {}
+//! C08 — Lasso and elastic net.  Generates integer-valued regression problems and parameter
+//! settings (valid and invalid), runs the real `Lasso::fit` / `ElasticNet::fit` (+ `predict`)
+//! under a watchdog, and records status and fixed-point outputs at several scales.  Related
+//! fits (target shifted by a constant; elastic net with l1_ratio = 1 versus Lasso) are
+//! additionally recorded side by side as `Pair` events.  No property logic: every verdict is
+//! taken by spec/linear/Lasso.tla under TLC (including the choice of the scale that is safe
+//! for 32-bit arithmetic).
+use rand::rngs::StdRng;
+use rand::Rng;
+use serde_json::{json, Value};
+use smartcore::linalg::naive::dense_matrix::DenseMatrix;
+use smartcore::linalg::BaseMatrix;
+use smartcore::linear::elastic_net::*;
+use smartcore::linear::lasso::*;
+use vutil::*;
+
+const SCALES: [u32; 4] = [12, 9, 6, 3];
+/// a normal fit takes milliseconds; the bulk of the run gets a generous limit, the probes of
+/// the hang-prone classes at the end of the run (whose abandoned threads keep spinning until
+/// the process exits) a short one
+const WATCHDOG_SECS: u64 = 20;
+const WATCHDOG_PROBE_SECS: u64 = 4;
+
+#[derive(Clone)]
+struct Params {
+    est: &'static str, // "lasso" | "enet"
+    an: i64,
+    ae: u32,
+    l1n: i64,
+    l1e: u32,
+    normalize: bool,
+    tol_sgn: i64,
+    tol_e: u32,
+    max_iter: usize,
+}
+
+impl Params {
+    fn alpha(&self) -> f64 {
+        self.an as f64 / (1u64 << self.ae) as f64
+    }
+    fn l1(&self) -> f64 {
+        self.l1n as f64 / (1u64 << self.l1e) as f64
+    }
+    fn tol(&self) -> f64 {
+        self.tol_sgn as f64 * (2.0f64).powi(-(self.tol_e as i32))
+    }
+}
+
+#[derive(Clone)]
+struct Data {
+    fam: String,
+    x: Vec<Vec<i64>>,
+    xden: i64,
+    y: Vec<i64>,
+}
+
+struct Outcome {
+    status: &'static str,
+    w: Vec<f64>,
+    b: f64,
+    yhat: Vec<f64>,
+}
+
+fn run_fit(d: &Data, pr: &Params) -> Outcome {
+    run_fit_limit(d, pr, WATCHDOG_SECS)
+}
+
+fn run_fit_limit(d: &Data, pr: &Params, secs: u64) -> Outcome {
+    let rows: Vec<Vec<f64>> = d.x.iter().map(|r| r.iter().map(|&v| v as f64 / d.xden as f64).collect()).collect();
+    let y: Vec<f64> = d.y.iter().map(|&v| v as f64).collect();
+    let pr = pr.clone();
+    let p = if rows.is_empty() { 0 } else { rows[0].len() };
+    let r = watchdog(secs, move || {
+        let x = DenseMatrix::from_2d_vec(&rows);
+        if pr.est == "lasso" {
+            Lasso::fit(&x, &y, LassoParameters { alpha: pr.alpha(), normalize: pr.normalize, tol: pr.tol(), max_iter: pr.max_iter })
+                .and_then(|m| {
+                    let yh = m.predict(&x)?;
+                    Ok(((0..p).map(|j| m.coefficients().get(j, 0)).collect::<Vec<f64>>(), m.intercept(), yh))
+                })
+        } else {
+            ElasticNet::fit(&x, &y, ElasticNetParameters { alpha: pr.alpha(), l1_ratio: pr.l1(), normalize: pr.normalize, tol: pr.tol(), max_iter: pr.max_iter })
+                .and_then(|m| {
+                    let yh = m.predict(&x)?;
+                    Ok(((0..p).map(|j| m.coefficients().get(j, 0)).collect::<Vec<f64>>(), m.intercept(), yh))
+                })
+        }
+    });
+    match r {
+        None => Outcome { status: "timeout", w: vec![], b: 0.0, yhat: vec![] },
+        Some(Err(_)) => Outcome { status: "panic", w: vec![], b: 0.0, yhat: vec![] },
+        Some(Ok(Err(_))) => Outcome { status: "err", w: vec![], b: 0.0, yhat: vec![] },
+        Some(Ok(Ok((w, b, yhat)))) => Outcome { status: "ok", w, b, yhat },
+    }
+}
+
+fn finite(o: &Outcome) -> bool {
+    o.status == "ok" && o.b.is_finite() && o.w.iter().all(|v| v.is_finite()) && o.yhat.iter().all(|v| v.is_finite())
+}
+
+fn fit_event(run: i64, d: &Data, pr: &Params, o: &Outcome) -> Value {
+    let fin = finite(o);
+    let mut q = vec![];
+    if fin {
+        for &s in SCALES.iter() {
+            let qz = Q::with_limit(s, 1.0e9);
+            let w = qz.v(&o.w);
+            let b = qz.x(o.b);
+            let yh = qz.v(&o.yhat);
+            if qz.ok() {
+                q.push(json!({"S": s, "W": w, "B": b, "Yhat": yh}));
+            }
+        }
+    }
+    json!({"run": run, "ev": "Fit", "est": pr.est, "fam": d.fam, "n": d.x.len(), "p": if d.x.is_empty() {0} else {d.x[0].len()},
+        "X": d.x, "xden": d.xden, "y": d.y, "ylen": d.y.len(),
+        "aN": pr.an, "aE": pr.ae, "l1N": pr.l1n, "l1E": pr.l1e, "normalize": pr.normalize,
+        "tolSgn": pr.tol_sgn, "tolE": pr.tol_e, "maxIter": pr.max_iter,
+        "status": o.status, "fin": fin, "q": q})
+}
+
+fn pair_event(run: i64, kind: &str, d: &Data, pr: &Params, c: i64, a: &Outcome, b: &Outcome) -> Value {
+    let fin = finite(a) && finite(b);
+    let mut q = vec![];
+    if fin {
+        for &s in SCALES.iter() {
+            let qz = Q::with_limit(s, 1.0e9);
+            let wa = qz.v(&a.w);
+            let ba = qz.x(a.b);
+            let wb = qz.v(&b.w);
+            let bb = qz.x(b.b);
+            let cc = qz.x(c as f64);
+            if qz.ok() {
+                q.push(json!({"S": s, "WA": wa, "BA": ba, "WB": wb, "BB": bb, "C": cc}));
+            }
+        }
+    }
+    json!({"run": run, "ev": "Pair", "kind": kind, "est": pr.est, "fam": d.fam, "n": d.x.len(), "p": d.x[0].len(),
+        "X": d.x, "y": d.y, "shift": c,
+        "aN": pr.an, "aE": pr.ae, "l1N": pr.l1n, "l1E": pr.l1e, "normalize": pr.normalize, "tolE": pr.tol_e,
+        "statusA": a.status, "statusB": b.status, "fin": fin, "q": q})
+}
+
+// ------------------------------------------------------------------ generators
+fn gen_x(rng: &mut StdRng, n: usize, p: usize, fam: &str) -> Vec<Vec<i64>> {
+    let mut x = vec![vec![0i64; p]; n];
+    match fam {
+        "dense" | "bigmean" => {
+            for j in 0..p {
+                let c: i64 = if fam == "dense" { rng.gen_range(-12..=12) } else { rng.gen_range(30..=90) * if rng.gen_bool(0.5) { 1 } else { -1 } };
+                let a: i64 = rng.gen_range(1..=6);
+                for i in 0..n {
+                    x[i][j] = c + rng.gen_range(-a..=a);
+                }
+            }
+        }
+        "collinear" => {
+            for i in 0..n {
+                x[i][0] = rng.gen_range(-6..=6);
+            }
+            for j in 1..p {
+                let k: i64 = rng.gen_range(-2..=2);
+                let c: i64 = rng.gen_range(-4..=4);
+                for i in 0..n {
+                    x[i][j] = k * x[i][0] + c + rng.gen_range(-1..=1);
+                }
+            }
+        }
+        "pm1" => {
+            for j in 0..p {
+                let c: i64 = rng.gen_range(0..=2);
+                for i in 0..n {
+                    x[i][j] = c + if rng.gen_bool(0.5) { 1 } else { -1 };
+                }
+            }
+        }
+        _ => {
+            for j in 0..p {
+                for i in 0..n {
+                    x[i][j] = if rng.gen_bool(0.5) { 0 } else { rng.gen_range(-9..=9) };
+                }
+            }
+            for j in 0..p {
+                x[0][j] = 0;
+            }
+        }
+    }
+    x
+}
+
+fn has_constant_column(x: &[Vec<i64>]) -> bool {
+    (0..x[0].len()).any(|j| x.iter().all(|r| r[j] == x[0][j]))
+}
+
+/// targets: 0 = random with mean exactly 0, 1 = linear + noise with mean exactly 0,
+/// 2 = random moderate mean, 3 = linear + noise, 4 = large mean (|mean| >> spread)
+fn gen_y(rng: &mut StdRng, x: &[Vec<i64>], kind: usize) -> Vec<i64> {
+    let n = x.len();
+    let p = x[0].len();
+    let lin = |rng: &mut StdRng| -> Vec<i64> {
+        let w: Vec<i64> = (0..p).map(|_| if rng.gen_bool(0.4) { 0 } else { rng.gen_range(-3..=3) }).collect();
+        (0..n)
+            .map(|i| {
+                let mut v = 0;
+                for k in 0..p {
+                    v += w[k] * x[i][k];
+                }
+                v.max(-300).min(300) + rng.gen_range(-2..=2)
+            })
+            .collect()
+    };
+    let zero_mean = |mut y: Vec<i64>| -> Vec<i64> {
+        // make the sum a multiple of n by adjusting one entry, then subtract the integer mean
+        let n = y.len() as i64;
+        let s: i64 = y.iter().sum();
+        y[0] -= s.rem_euclid(n);
+        let m = y.iter().sum::<i64>() / n;
+        y.iter().map(|v| v - m).collect()
+    };
+    match kind {
+        0 => zero_mean((0..n).map(|_| rng.gen_range(-30..=30)).collect()),
+        1 => zero_mean(lin(rng)),
+        2 => {
+            let m: i64 = rng.gen_range(-40..=40);
+            (0..n).map(|_| m + rng.gen_range(-30..=30)).collect()
+        }
+        3 => {
+            let m: i64 = rng.gen_range(-40..=40);
+            lin(rng).iter().map(|v| v + m).collect()
+        }
+        _ => {
+            let m: i64 = [1000, -3000, 20000, 100000][rng.gen_range(0..4)];
+            (0..n).map(|_| m + rng.gen_range(-8..=8)).collect()
+        }
+    }
+}
+
+const FAMS: [&str; 5] = ["dense", "bigmean", "collinear", "pm1", "zeros"];
+const ALPHAS: [(i64, u32); 10] = [(1, 10), (1, 6), (1, 3), (1, 1), (1, 0), (3, 0), (10, 0), (40, 0), (200, 0), (1000, 0)];
+const L1S: [(i64, u32); 4] = [(1, 0), (1, 1), (1, 2), (3, 2)];
+const TOLS: [u32; 3] = [10, 14, 20];
+
+fn gen_data(rng: &mut StdRng, big: bool) -> Data {
+    loop {
+        let p: usize = if big { rng.gen_range(1..=6) } else { rng.gen_range(1..=4) };
+        let n: usize = if big { rng.gen_range(p + 1..=p + 14) } else { rng.gen_range(p + 1..=10) };
+        let fam = FAMS[rng.gen_range(0..FAMS.len())];
+        let x = gen_x(rng, n, p, fam);
+        if has_constant_column(&x) {
+            continue; // outside the property's domain ("no constant column")
+        }
+        let kind = rng.gen_range(0..5);
+        let y = gen_y(rng, &x, kind);
+        if y.iter().all(|&v| v == y[0]) {
+            continue; // constant targets are probed separately (end of the run)
+        }
+        return Data { fam: format!("{}/y{}", fam, kind), x, xden: 1, y };
+    }
+}
+
+fn gen_params(rng: &mut StdRng, est: &'static str) -> Params {
+    let (an, ae) = if rng.gen_bool(0.75) { ALPHAS[rng.gen_range(0..ALPHAS.len())] } else { (rng.gen_range(1..=80), 3) };
+    let (l1n, l1e) = if est == "lasso" { (1, 0) } else { L1S[rng.gen_range(0..L1S.len())] };
+    Params { est, an, ae, l1n, l1e, normalize: rng.gen_bool(0.5), tol_sgn: 1, tol_e: TOLS[rng.gen_range(0..3)], max_iter: 1000 }
+}
+
+fn gen(path: &str) {
+    let mut out = Out::create(path);
+    let mut rng = rng(8);
+    let thorough = thorough();
+    let n_valid = if thorough { 16000 } else { 2400 };
+    let n_pairs = if thorough { 5000 } else { 800 };
+    let n_invalid = if thorough { 2400 } else { 400 };
+    let mut run = 0i64;
+    let mut counts = std::collections::BTreeMap::new();
+    let mut bump = |k: &str| *counts.entry(k.to_string()).or_insert(0usize) += 1;
+
+    // ---- valid settings: a result is promised
+    for i in 0..n_valid {
+        run += 1;
+        let d = gen_data(&mut rng, thorough && i % 3 == 0);
+        let pr = gen_params(&mut rng, if i % 2 == 0 { "lasso" } else { "enet" });
+        let o = run_fit(&d, &pr);
+        bump(o.status);
+        out.emit(fit_event(run, &d, &pr, &o));
+    }
+    // ---- related fits
+    for i in 0..n_pairs {
+        run += 1;
+        let d = gen_data(&mut rng, false);
+        if i % 3 == 2 {
+            // elastic net with l1_ratio = 1 versus Lasso
+            let mut pe = gen_params(&mut rng, "enet");
+            pe.l1n = 1;
+            pe.l1e = 0;
+            let mut pl = pe.clone();
+            pl.est = "lasso";
+            let a = run_fit(&d, &pe);
+            let b = run_fit(&d, &pl);
+            out.emit(fit_event(run, &d, &pe, &a));
+            out.emit(fit_event(run, &d, &pl, &b));
+            out.emit(pair_event(run, "l1one", &d, &pe, 0, &a, &b));
+        } else {
+            let pr = gen_params(&mut rng, if i % 3 == 0 { "lasso" } else { "enet" });
+            let c: i64 = [1, -7, 100, 1000, -5000, 100000][rng.gen_range(0..6)];
+            let mut d2 = d.clone();
+            d2.y = d.y.iter().map(|v| v + c).collect();
+            let a = run_fit(&d, &pr);
+            let b = run_fit(&d2, &pr);
+            out.emit(fit_event(run, &d, &pr, &a));
+            out.emit(fit_event(run, &d2, &pr, &b));
+            out.emit(pair_event(run, "shift", &d, &pr, c, &a, &b));
+        }
+    }
+    // ---- invalid settings of Lasso: an error is promised
+    for i in 0..n_invalid {
+        run += 1;
+        let mut d = gen_data(&mut rng, false);
+        let mut pr = gen_params(&mut rng, "lasso");
+        let n = d.x.len();
+        let p = d.x[0].len();
+        let which = i % 8;
+        match which {
+            0 => pr.an = -rng.gen_range(1..=50),
+            1 => pr.tol_sgn = 0,
+            2 => pr.tol_sgn = -1,
+            3 => pr.max_iter = 0,
+            4 => {
+                // n <= p: keep p (or fewer) rows
+                let keep = rng.gen_range(1..=p);
+                d.x.truncate(keep);
+                d.y.truncate(keep);
+            }
+            5 => {
+                // length mismatch
+                if rng.gen_bool(0.5) {
+                    d.y.push(3);
+                } else {
+                    d.y.truncate(n - 1);
+                }
+            }
+            _ => {
+                // a constant column under normalisation: integer, non-dyadic (xden) or huge constant
+                pr.normalize = true;
+                let j = rng.gen_range(0..p);
+                let (c, den): (i64, i64) = [(0, 1), (5, 1), (100000001, 1), (-3, 1), (64, 1)][rng.gen_range(0..5)];
+                if den != 1 {
+                    for r in d.x.iter_mut() {
+                        for v in r.iter_mut() {
+                            *v *= den;
+                        }
+                    }
+                    d.xden = den;
+                }
+                for r in d.x.iter_mut() {
+                    r[j] = c;
+                }
+                // a second invalid reason now and then
+                if rng.gen_bool(0.2) {
+                    pr.max_iter = 0;
+                }
+            }
+        }
+        d.fam = format!("invalid{}", which.min(6));
+        let o = run_fit(&d, &pr);
+        bump(o.status);
+        out.emit(fit_event(run, &d, &pr, &o));
+    }
+    // ---- probes of the classes in which the optimiser has been seen not to return
+    // (kept last and few: an abandoned fit keeps its thread busy until the process exits)
+    // four fixed instances first (the minimal reproductions quoted in known_findings/C08.json)
+    let fixed: Vec<(Data, Params)> = vec![
+        (Data { fam: "probe-alpha0/fixed".into(), x: vec![vec![-4], vec![-13]], xden: 1, y: vec![100001, 99994] },
+         Params { est: "lasso", an: 0, ae: 0, l1n: 1, l1e: 0, normalize: false, tol_sgn: 1, tol_e: 20, max_iter: 1000 }),
+        (Data { fam: "probe-alpha0/fixed".into(), x: vec![vec![83], vec![79], vec![78]], xden: 1, y: vec![14, -8, -6] },
+         Params { est: "enet", an: 0, ae: 0, l1n: 1, l1e: 1, normalize: false, tol_sgn: 1, tol_e: 14, max_iter: 1000 }),
+        (Data { fam: "probe-consty/fixed".into(), x: vec![vec![-1], vec![-1], vec![1]], xden: 1, y: vec![0, 0, 0] },
+         Params { est: "enet", an: 1, ae: 0, l1n: 1, l1e: 1, normalize: false, tol_sgn: 1, tol_e: 14, max_iter: 1000 }),
+        (Data { fam: "probe-constcol".into(), x: vec![vec![1], vec![1], vec![1]], xden: 10, y: vec![-124, -132, -128] },
+         Params { est: "lasso", an: 2, ae: 3, l1n: 1, l1e: 0, normalize: true, tol_sgn: 1, tol_e: 14, max_iter: 1000 }),
+    ];
+    for (d, pr) in fixed.iter() {
+        run += 1;
+        let o = run_fit_limit(d, pr, WATCHDOG_PROBE_SECS);
+        bump(o.status);
+        out.emit(fit_event(run, d, pr, &o));
+    }
+    let k = if thorough { 4 } else { 1 };
+    for i in 0..3 * k {
+        run += 1;
+        let mut d = gen_data(&mut rng, false);
+        let mut pr = gen_params(&mut rng, if i % 2 == 0 { "lasso" } else { "enet" });
+        match i % 3 {
+            0 => {
+                pr.an = 0;
+                pr.ae = 0;
+                d.fam = format!("probe-alpha0/{}", d.fam);
+            }
+            1 => {
+                let c = [0i64, 5, -1000][rng.gen_range(0..3)];
+                d.y = vec![c; d.y.len()];
+                d.fam = format!("probe-consty/{}", d.fam);
+            }
+            _ => {
+                pr.est = "lasso";
+                pr.l1n = 1;
+                pr.l1e = 0;
+                pr.normalize = true;
+                let j = rng.gen_range(0..d.x[0].len());
+                let (c, den): (i64, i64) = [(1, 10), (1, 3), (7, 10)][rng.gen_range(0..3)];
+                for r in d.x.iter_mut() {
+                    for v in r.iter_mut() {
+                        *v *= den;
+                    }
+                    r[j] = c;
+                }
+                d.xden = den;
+                d.fam = "probe-constcol".to_string();
+            }
+        }
+        let o = run_fit_limit(&d, &pr, WATCHDOG_PROBE_SECS);
+        bump(o.status);
+        out.emit(fit_event(run, &d, &pr, &o));
+    }
+    let n = out.finish();
+    println!("events={} statuses={:?}", n, counts);
+}
+
+/// re-execute the Fit events of a replay artefact
+fn replay_file(input: &str, path: &str) {
+    let evs = read_ndjson(input);
+    let mut out = Out::create(path);
+    for e in evs {
+        if e["ev"] != "Fit" {
+            continue;
+        }
+        let d = Data {
+            fam: e["fam"].as_str().unwrap_or("replay").to_string(),
+            x: serde_json::from_value(e["X"].clone()).unwrap(),
+            xden: e["xden"].as_i64().unwrap_or(1),
+            y: serde_json::from_value(e["y"].clone()).unwrap(),
+        };
+        let pr = Params {
+            est: if e["est"] == "lasso" { "lasso" } else { "enet" },
+            an: e["aN"].as_i64().unwrap(),
+            ae: e["aE"].as_u64().unwrap() as u32,
+            l1n: e["l1N"].as_i64().unwrap(),
+            l1e: e["l1E"].as_u64().unwrap() as u32,
+            normalize: e["normalize"].as_bool().unwrap(),
+            tol_sgn: e["tolSgn"].as_i64().unwrap(),
+            tol_e: e["tolE"].as_u64().unwrap() as u32,
+            max_iter: e["maxIter"].as_u64().unwrap() as usize,
+        };
+        let o = run_fit(&d, &pr);
+        out.emit(fit_event(e["run"].as_i64().unwrap(), &d, &pr, &o));
+    }
+    println!("events={}", out.finish());
+}
+
+fn main() {
+    silence_panics();
+    let args: Vec<String> = std::env::args().collect();
+    match arg(&args, 1) {
+        "gen" => gen(arg(&args, 2)),
+        "replay-file" => replay_file(arg(&args, 2), arg(&args, 3)),
+        other => {
+            eprintln!("unknown sub-command {}", other);
+            std::process::exit(2)
+        }
+    }
+}
